@@ -68,6 +68,8 @@ def templates(cfg):
     # filter before (WHERE) and after (HAVING / on aggregated rows)
     T("regroup_ungroup_after", lambda p, t: t >> p.group_by(t.g) >> p.summarize(m=t.b.sum()) >> p.group_by(p.C.g) >> p.ungroup() >> p.mutate(z=p.C.m + 1))
     T("regroup_mutate_ungroup_after", lambda p, t: t >> p.group_by(t.g) >> p.summarize(m=t.b.sum()) >> p.group_by(p.C.m) >> p.mutate(z=p.C.g.fill_null(0) + 1) >> p.ungroup() >> p.filter(p.C.z > 1))
+    # F73 (found by the generator, gen.0.828): every aggregate of an ungrouped summarize is overwritten by a constant afterwards
+    T("ungrouped_then_overwrite_const", lambda p, t: t >> p.summarize(s=t.b.sum()) >> p.mutate(s=5))
     T("filter_before", lambda p, t: t >> p.filter(t.a > 0) >> p.group_by(t.g) >> p.summarize(s=t.b.sum()))
     T("filter_after", lambda p, t: t >> p.group_by(t.g) >> p.summarize(s=t.b.sum()) >> p.filter(p.C.s > 1))
     T("filter_both", lambda p, t: t >> p.filter(t.b.is_not_null()) >> p.group_by(t.g) >> p.summarize(s=t.b.sum(), n=p.count()) >> p.filter(p.C.n > 1))
